@@ -219,6 +219,21 @@ pub fn generate(tier: &str, seed: u64, shard: u64, nshards: u64, path: &str) -> 
         t.emit(&to_payload_event(m, &mut rng));
         cases += 1;
     }
+    if shard == 0 {
+        // data bodies whose FIRST value is a number whose leading bytes look like markers (00 02 .., 00 00 .., 00 0A ..):
+        // ids 15 and 18 carry exactly the AMF0 sequence, nothing is to be skipped in front of it
+        for lead in [0x00u8, 0x02, 0x03, 0x05, 0x08, 0x0A, 0x0C].iter() {
+            for ty in [15u8, 18].iter() {
+                let bits = [*lead, 0x00, 0x05, b'h', b'e', b'l', b'l', b'o'];
+                let vals = vec![RV::Num(bits), RV::Str(b"x".to_vec())];
+                let mut body = Vec::new();
+                for v in &vals { rv_enc(v, &mut body); }
+                let intent = json!({"k":"Data","vals": vals.iter().map(rv_json).collect::<Vec<_>>()});
+                t.emit(&to_message_event("conf", *ty, &body, intent));
+                cases += 1;
+            }
+        }
+    }
     // foreign AMF0 bodies under ids 18/15 and 20/17 (with and without the leading zero)
     for _ in 0..(40 * scale / nshards as usize + 1) {
         let n = rng.below(4) as usize;
